@@ -150,7 +150,7 @@ def h_tamper(ctx, kind, how, lmax):
 def h_vector(ctx):
     """the repository's own fixture vector, against the library and the reference (concrete in both modes)"""
     import base64, re, os
-    src = open(os.path.join(os.environ.get("YOWSUP_REPO", "/repo"), "yowsup/layers/protocol_media/test_mediacipher.py")).read()
+    src = open(os.path.join((os.environ.get("YOWSUP_REPO") or "/repo"), "yowsup/layers/protocol_media/test_mediacipher.py")).read()
     m = re.search(r"IMAGE = \((.*?)\n    \)", src, re.S)
     parts = eval("(" + m.group(1) + ")")
     key, plain, enc = [base64.b64decode(x) for x in parts]
